@@ -76,8 +76,15 @@ impl FeatureConstraint for SkillsConstraint {
             (Some(_), None) | (None, None) => true,
             (None, Some(_)) => false,
             (Some(source_skills), Some(candidate_skills)) => {
+                // NOTE one of requirement is weaker for a bigger set, so the merged job, which keeps skills of the
+                // source, satisfies the candidate's requirement only when the source set is a subset of the candidate's
+                let check_one_of_sets = || match (source_skills.one_of.as_ref(), candidate_skills.one_of.as_ref()) {
+                    (Some(source_set), Some(candidate_set)) => source_set.is_subset(candidate_set),
+                    (source_set, candidate_set) => check_skill_sets(source_set, candidate_set),
+                };
+
                 check_skill_sets(source_skills.all_of.as_ref(), candidate_skills.all_of.as_ref())
-                    && check_skill_sets(source_skills.one_of.as_ref(), candidate_skills.one_of.as_ref())
+                    && check_one_of_sets()
                     && check_skill_sets(source_skills.none_of.as_ref(), candidate_skills.none_of.as_ref())
             }
         };
